@@ -1,6 +1,7 @@
 import ColoVerif.Model.BusyIO
 import ColoVerif.Gen.Api
 import ColoVerif.Gen.ApiSizes
+import ColoVerif.Model.NetsValue
 import Driver.Common
 /-
 Driver for C10: replays the traces observed by harness/h_C10.cpp on the IR semantics
@@ -19,6 +20,10 @@ Driver for C10: replays the traces observed by harness/h_C10.cpp on the IR seman
   szset <name> <busy> <free> <15 sizes> <args>
                            -> `sz <outcome> <15 sizes>`: the setter on the size semantics (`Model/BusySizes.lean`
                               over `Gen/ApiSizes.lean`); `free` = the length an `anyLen` write produces
+  nvnew <n>                -> `nv ok …`           a new `Circuit(n)` on the value semantics of the net arrays (`Model/NetsValue.lean`)
+  nvadd <k> <k cells> <nx> <ny>                   `addNet` with k pin cells and offset vectors of nx / ny entries
+  nvset <m> <m limits> <k> <k cells> <nx> <ny> <nw>   `setNets`
+                           -> `nv ok|throw <Wf 0|1> L <netLimits_> P <pinCells_> S <|xoffs|> <|yoffs|> <|weights|>`
 -/
 open ColoVerif ColoVerif.Busy ColoVerif.BusyIO ColoVerif.BusySizes ColoVerif.Gen Driver
 
@@ -28,7 +33,33 @@ def szLine (name busy free : String) (rest : List String) : String :=
   let r := runFnS ApiSizes.setters ⟨name, args, BusyIO.int! free⟩ ⟨busy == "1", Sz.ofList ((rest.take n).map BusyIO.int!)⟩
   "sz " ++ showOutcome r.out ++ " " ++ " ".intercalate (r.st.sz.toList.map toString)
 
+def nvLine (ok : Bool) (s : NetsValue.Nets) : String :=
+  "nv " ++ (if ok then "ok" else "throw") ++ (if NetsValue.wfB s then " 1" else " 0") ++ " L " ++ showInts s.limits
+    ++ " P " ++ showInts s.pins ++ " S " ++ toString s.nx ++ " " ++ toString s.ny ++ " " ++ toString s.nw
+
+/-- `<k> <k items> rest` -/
+def takeCounted (ws : List String) : List Int × List String :=
+  match ws with
+  | [] => ([], [])
+  | k :: r => (ints (r.take k.toNat!), r.drop k.toNat!)
+
+def nvOp (ws : List String) : Option NetsValue.Op :=
+  match ws with
+  | "nvadd" :: r =>
+    let (cells, r1) := takeCounted r
+    match r1 with
+    | [nx, ny] => some (.add cells nx.toNat! ny.toNat!)
+    | _ => none
+  | "nvset" :: r =>
+    let (limits, r1) := takeCounted r
+    let (cells, r2) := takeCounted r1
+    match r2 with
+    | [nx, ny, nw] => some (.set limits cells nx.toNat! ny.toNat! nw.toNat!)
+    | _ => none
+  | _ => none
+
 structure DS where
+  nets : NetsValue.Nets := NetsValue.init 0
   st : St := ⟨false, []⟩
   call : Option String := none
   depth : Nat := 0
@@ -76,6 +107,13 @@ def step (s : DS) : List String → DS × List String
           ({ s with st := r.st }, [setterLine sc.name s.st r])
         | none => (s, ["bad-set"])
       | "szset" :: name :: busy :: free :: rest => (s, [szLine name busy free rest])
+      | ["nvnew", n] => ({ s with nets := NetsValue.init (Driver.int! n) }, [nvLine true (NetsValue.init (Driver.int! n))])
+      | "nvadd" :: _ | "nvset" :: _ =>
+        match nvOp ws with
+        | some o =>
+          let s' := NetsValue.step s.nets o
+          ({ s with nets := s' }, [nvLine (NetsValue.apply? s.nets o).isSome s'])
+        | none => (s, ["bad-nv"])
       | _ => (s, ["bad-op " ++ " ".intercalate ws])
     else
       match ws with
